@@ -1,6 +1,6 @@
 (* C08 -- Transmission discipline.  Statements only. *)
 From Coq Require Import ZArith List Bool Arith.
-From RV Require Import GenConsts M_Qos P_Qos P_QosQueue.
+From RV Require Import GenConsts M_Qos P_Qos P_QosQueue P_QosSlot.
 Import ListNotations.
 Open Scope Z_scope.
 
@@ -61,3 +61,25 @@ Proof. exact priority_then_arrival. Qed.
 (* the caps are the ones the property states: 1 + min(max_retries, 3) transmissions, waits doubling up to 8x *)
 Theorem C08_caps_as_stated : MAX_RETRY = 3%nat /\ 2 ^ Z.of_nat MULT_CAP = 8.
 Proof. split; reflexivity. Qed.
+
+(* ONE IN FLIGHT: in EVERY reachable world (any events, tie policy, transport behaviour, number of steps, assertion crashes included), while the
+   command holding the FSM's slot has not had its caller answered (result, error or cancellation), NO next step of the machine gives the slot
+   to another command, and the command being transmitted / awaited is the holder or nothing ... *)
+Theorem C08_one_in_flight : forall cmds plan lifo fuel evs w' f,
+  let w := fst (run cmds plan lifo fuel (world0 evs)) in
+  curfut (cx w) = Some f -> fut_done (fut_of w f) = false -> step cmds plan lifo w = Some w' ->
+  curfut (cx w') = Some f /\ (cur (cx w') = None \/ cur (cx w') = Some f).
+Proof. exact one_in_flight. Qed.
+(* ... in every reachable world the command being worked on is the slot's holder ... *)
+Theorem C08_current_is_holder : forall cmds plan lifo fuel evs,
+  let w := fst (run cmds plan lifo fuel (world0 evs)) in cur (cx w) = None \/ cur (cx w) = curfut (cx w).
+Proof. exact current_is_holder. Qed.
+(* ... the premises are met (command 0 unanswered in the slot, command 1 waiting in the buffer, the machine has a next step), and the slot
+   does change hands once the holder has been answered *)
+Theorem C08_one_in_flight_nonvacuous :
+  let w := fst (run two_cmds echo_soon false 22 (world0 [(0, ConnMade); (1000, Call 0%nat); (2000, Call 1%nat)])) in
+  curfut (cx w) = Some 0%nat /\ fut_done (fut_of w 0%nat) = false /\ (exists w', step two_cmds echo_soon false w = Some w') /\
+  length (que (cx w)) = 1%nat.
+Proof. exact one_in_flight_nonvacuous. Qed.
+Theorem C08_slot_changes_hands : exists a b, (a < b)%nat /\ holder_after a = Some 0%nat /\ holder_after b = Some 1%nat.
+Proof. exact slot_changes_hands. Qed.
